@@ -18,5 +18,9 @@ CONSTANTS
   StopKA = TRUE
   CloseAtomic = FALSE
   KeepSink = TRUE
+  FailSet = {0, 1, 2}
+  MaxReq = 1
+  SharedBuf = FALSE
+  MmEncodeInAdd = FALSE
 INVARIANT CompleteLast
 CHECK_DEADLOCK FALSE
